@@ -159,4 +159,10 @@ def r1_5(ctx):
     borrow(ctx, r8_10, "R8.10", "R1.5", " [bars stay within their width: both edges use the same rounding]")
 
 
-RULES = [r1_1, r1_2, r1_3, r1_4, r1_5]
+def r1_6(ctx):
+    from .c05 import r5_8
+    from .common import borrow
+    borrow(ctx, r5_8, "R5.8", "R1.6", " [cropped / padded text fits the width it was given only if it is measured in cells]")
+
+
+RULES = [r1_1, r1_2, r1_3, r1_4, r1_5, r1_6]
